@@ -61,6 +61,20 @@ LITERAL_PAIRS = [   # witnesses of known findings and documented tolerances: alw
      "param-hour-like-value-colon-spacing")
     for v in ("12", "03", "21")
 ] + [
+    # blanks after the separating colon, the description starting with two digits that could be minutes (00-59) and holding a further
+    # colon: the look-ahead half of the same regular expression (known finding; hunter round 2)
+    (LIT_HEAD + "~Parameter\nCSGD .M 1500.0 : %s inch casing shoe: driller depth\n" % v + LIT_TAIL,
+     LIT_HEAD + "~Parameter\nCSGD .M 1500.0 :%s inch casing shoe: driller depth\n" % v + LIT_TAIL, ["pad_fields"], "param-minute-like-description-colon-spacing")
+    for v in ("20", "05", "59")
+] + [
+    (LIT_HEAD + "~Parameter\nCSGD .M 1500.0 : %s inch casing shoe: driller depth\n" % v + LIT_TAIL,
+     LIT_HEAD + "~Parameter\nCSGD .M 1500.0 :%s inch casing shoe: driller depth\n" % v + LIT_TAIL, ["pad_fields"])
+    for v in ("60", "75", "9", "x1")
+] + [
+    # a tab instead of blanks before the '..' of the documented ~Curve form 'DEPT  ..1IN' (mnemonic DEPT, unit .1IN)
+    (LIT_HEAD.replace("DEPT.M : d", "DEPT  ..1IN : d") + LIT_TAIL, LIT_HEAD.replace("DEPT.M : d", "DEPT %s..1IN : d" % pad) + LIT_TAIL, ["pad_fields"])
+    for pad in ("\t", " \t", "\t ", "    ")
+] + [
     (LIT_HEAD + "~Parameter\nRUN .\t%s : Run number: main pass\n" % v + LIT_TAIL, LIT_HEAD + "~Parameter\nRUN . %s : Run number: main pass\n" % v + LIT_TAIL, ["pad_fields"])
     for v in ("15", "12", "07", "24")
 ]
